@@ -48,7 +48,8 @@ def roll_episode(rng, cls_name):
                 fees=rng.choice([["0", "0", "0"], ["0", "1/2000", "0"]]), deposit="10000000", grid=grid, events=events,
                 latency=0, delay=0, markov=False, warmup=None,
                 space=dict(kind="box", low="-1", high="1", keys=["@c"], asWeights=1, fractional=1,
-                           margin=rng.choice(["0", "0", "1/50", "1/4"])),
+                           margin=rng.choice(["0", "0", "1/50", "1/7"])),  # never equal to a target weight k/32: an imbalance exactly at the
+                           # threshold is decided by rounding in the real-valued regime (boundaries are C12's exact regime)
                 reward="pnl")
     w = Fraction(rng.choice([-1, 1]) * rng.randint(2, 12), 16)
     case["ops"] = [["reset", None, 0]] + [["step", [fr(w if rng.random() < 0.8 else w / 2)]] for _ in range(len(grid) - 1)]
